@@ -55,7 +55,7 @@ def chan? (s : String) : Option Nat := do
   if c < nChan then pure c else none
 
 inductive Cmd
-  | app (c mode base : Nat) (recs : List Rec)
+  | app (c mode base : Nat) (recs : List Rec) (cancellable : Bool)
   | op (o : Op)
   | scan
 
@@ -68,9 +68,16 @@ def parse (line : String) : Option Cmd :=
     let mode ← num? mode
     let base ← num? base
     if mode > 3 then none
-    pure (.app c mode base (← recs? rest))
+    pure (.app c mode base (← recs? rest) false)
+  | "appc" :: c :: mode :: base :: k :: rest => do
+    let c ← chan? c
+    let mode ← num? mode
+    let base ← num? base
+    let k ← num? k
+    if mode > 1 ∨ k = 0 then none
+    pure (.app c mode base (← recs? rest) true)
   | "fetch" :: c :: base :: rest => do
-    pure (.app (← chan? c) 2 (← num? base) (← recs? rest))
+    pure (.app (← chan? c) 2 (← num? base) (← recs? rest) false)
   | ["trunc", c, f] => do pure (.op (.trunc (← chan? c) (← num? f)))
   | ["trim", c, t] => do pure (.op (.trim (← chan? c) (← num? t) 0 0))
   | ["close", c] => do pure (.op (.close (← chan? c)))
@@ -136,6 +143,7 @@ structure St where
   s : SStore := SStore.init
   hm : HMap := []
   unspecified : Bool := false
+  fuzzy : List Nat := []      -- channels whose filter state is unknown (an append was cancelled mid-way); counters not predicted until reopen
 
 def scanWith (rowsOf : Nat → Except Err (List Row)) : String :=
   " | ".intercalate ((List.range nChan).map (fun c =>
@@ -156,13 +164,30 @@ def parseScan (impl : String) : Option (List (List (Nat × Nat × String × Stri
 def stepDrv (st : St) (line impl : String) : St × String × String :=
   match parse line with
   | none => (st, "bad-op", "ok")
-  | some (.app c mode base recs) =>
+  | some (.app c mode base recs cancellable) =>
     match splitImpl impl with
     | none => (st, "unparseable-impl-output", "viol:unparseable-output")
-    | some (head, _, _, h) =>
+    | some (head, is, ir, h) =>
       match learn st.hm c recs h with
       | none => (st, "inconsistent-hashes", "viol:inconsistent-hashes")
       | some hm =>
+        if cancellable ∧ head = "err:cancelled" then
+          -- the context was cancelled at one of its polls: nothing is committed (the batch commit is after the last poll);
+          -- where the filter stands is not modelled
+          ({ st with hm := hm, fuzzy := if st.fuzzy.contains c then st.fuzzy else c :: st.fuzzy }, impl, "ok")
+        else if st.fuzzy.contains c then
+          let (m', out) := doAppend st.m c mode base recs
+          let (s', sout) := specAppend st.s c mode base recs
+          let accepted := match sout with | .app _ _ k => k > 0 | _ => false
+          let brk := accepted && breachOf st.s (.app c mode base recs)
+          let st1 : St := { st with m := m', s := s', hm := hm, unspecified := st.unspecified || brk }
+          let verdict :=
+            if head = render sout ∨ st1.unspecified then "ok"
+            else if head.startsWith "ok" ∧ (render sout = "err:conflict") then "viol:duplicate-admitted"
+            else if head = "err:conflict" ∧ (render sout).startsWith "ok" then "viol:spurious-conflict"
+            else "viol:append-differs-from-reference"
+          (st1, s!"{render out} s={is} r={ir} h={h}", verdict)
+        else
         let f := st.fl.getD c {}
         let (m', f', n, out) := appendF (hashOf hm c) st.m f c mode base recs
         let mStr := s!"{render out} s={n.skips} r={n.reads} h={h}"
@@ -193,7 +218,8 @@ def stepDrv (st : St) (line impl : String) : St × String × String :=
     let (m', mo) := step st.m o
     let (s', so) := specStep st.s o
     let fl' := match o with | .reopen => st.fl.map (fun _ => ({} : Filter)) | _ => st.fl
-    let st1 : St := { st with m := m', s := s', fl := fl', unspecified := st.unspecified || truncBelowRetained st.s o }
+    let fz := match o with | .reopen => [] | _ => st.fuzzy
+    let st1 : St := { st with m := m', s := s', fl := fl', fuzzy := fz, unspecified := st.unspecified || truncBelowRetained st.s o }
     let verdict :=
       if impl = render so ∨ st1.unspecified then "ok"
       else s!"viol:{(fields line).headD "op"}-differs-from-reference"
